@@ -22,7 +22,7 @@ T = {
  'C04': ('translated label order is a strict total order; the phased sort terminates and returns the sorted merge with the inversion-parity sign; ARRAY level: '
          'operand swap = fermionic transpose of the result, axis re-listing, associativity of a chain in general position with ANY mode on all four contractions, '
          'several pairs in one call = one pair after the other (C04d)',
-         'Coq proof over translated source (OpOrder, PhasePerm) + correspondence + all-routes oracle with independent reference'),
+         'Coq proof over translated source (label order, Koszul routine, and resolve_combined_oddpos itself: Gen/OddposGen.v proved equal to the model) + correspondence + all-routes oracle with independent reference'),
  'C05': ('fused index tables exactly partition the fused charge (sorted, distinct, sizes, signed combination, direction of the first axis); layout and unfuse∘fuse '
          'round trip for ANY list of groups at value level (every original block bit-for-bit, extra blocks zero), for abelian AND fermionic arrays (C05h: the fuse and '
          'unfuse signs cancel); insert = concat strategy (Leibniz equality); generated calc_fuse_group_info and helpers equal the model',
@@ -31,9 +31,9 @@ T = {
          'coordinate), all modes agree; record equality refuted by example (fused stores extra zero blocks), so the statement is at value level',
          'Coq proof + cases.v correspondence (current fused path) + strategy / pre-fusing oracle incl. exhaustive single-block removal'),
  'C07': ('faithful fuel-bounded model of calc_reshape_args; finite-domain theorem (all shapes with <=5 axes of sizes in {1,2,3,4,6}, all reachable targets) by '
-         'vm_compute lifted with forallb_forall; unbounded: plan executor preserves norm and the multiset of entries for multi-group plans, round trip for one merged '
-         'run; three pinned known findings refuted with witnesses',
-         'Coq finite-domain decision (bound in the statement) + unbounded lemmas + exhaustive correspondence + array round-trip oracle'),
+         'vm_compute lifted with forallb_forall; unbounded: the routine GENERATED from the source equals the model, plan executor preserves norm and the multiset of '
+         'entries, round trip for several merged runs and for dropped size-one axes; three pinned known findings refuted with witnesses',
+         'Coq proof over translated source (calc_reshape_args: Gen/ReshapeGen.v proved equal to the model for all inputs) + finite-domain decision (bound in the statement) + unbounded array-level theorems + exhaustive correspondence + array round-trip oracle'),
  'C08': ('every listed structural / elementwise / arithmetic operation commutes with the coordinate semantics and with to_dense for every rank, table, symmetry and '
          'ring; raise conditions characterised; interface functions are plain forwarders (generated table)',
          'Coq refinement proofs + generated interface table + cases.v correspondence + numpy oracle'),
